@@ -375,8 +375,8 @@ func (st *stack) clientID(ref string) (int64, string, error) {
 		return 0, "x", nil
 	}
 	k, err := strconv.Atoi(ref)
-	if err != nil {
-		return 0, "", err
+	if err != nil || k < 0 {
+		return 0, "", fmt.Errorf("bad client reference %q", ref)
 	}
 	if k < len(st.table) {
 		return st.table[k].id, "", nil
@@ -439,9 +439,6 @@ func (st *stack) step(ev []string) (string, error) {
 		i, err := argn(1)
 		if err != nil {
 			return "", err
-		}
-		if i+1 > st.nIPs {
-			st.nIPs = i + 1
 		}
 		switch ev[0] {
 		case "ban":
